@@ -675,7 +675,7 @@ static void add_net_faults(Rng &g, Plan &p, int n, int attempts_with_faults, int
 static Plan musig_generate(uint64_t seed, int tier) {
     Rng g(seed);
     Plan p;
-    int n = g.chance(1, 6) ? (int)g.range(1, tier ? 16 : 8) : (int)g.range(2, 4);
+    int n = g.chance(1, 6) ? (int)g.range(1, (tier || g.chance(1, 3)) ? 16 : 8) : (int)g.range(2, 4);
     p.cfg["n"] = n;
     p.cfg["inseed"] = (int64_t)(g.next() >> 1);
     p.cfg["keyclass"] = g.chance(1, 2) ? 0 : (int64_t)g.below(4);
